@@ -40,10 +40,19 @@ type seqGen struct {
 	saved    map[int]bool
 	dirty    map[int]bool // deferred executor: keys written since the executor last ran
 	avoidK1  bool
+	zeroUsed bool
 }
 
-func (g *seqGen) key() int { return 1 + g.r.intn(g.nkeys) }
-func (g *seqGen) val() int { g.nextVal++; return g.nextVal }
+// keys include 0 and, once per script, the value 0 is written: zero values are where encoders and "absent" markers go wrong
+func (g *seqGen) key() int { return g.r.intn(g.nkeys + 1) }
+func (g *seqGen) val() int {
+	if !g.zeroUsed && g.r.chance(0.08) {
+		g.zeroUsed = true
+		return 0
+	}
+	g.nextVal++
+	return g.nextVal
+}
 func (g *seqGen) add(f string, a ...any) {
 	line := fmt.Sprintf(f, a...)
 	if g.avoidK1 {
@@ -258,12 +267,34 @@ func (g *seqGen) nestedBlock(keys []int) string {
 	return " { " + strings.Join(ops, " ; ") + " }"
 }
 
+// afterRetBlock: writes placed between the loader's return and the installation of its result (never blocking operations)
+func (g *seqGen) afterRetBlock(keys []int) string {
+	if g.avoidK1 || !g.r.chance(0.3) {
+		return ""
+	}
+	var ops []string
+	for i := 0; i < 1+g.r.intn(2); i++ {
+		k := pick(g.r, keys)
+		switch g.r.intn(5) {
+		case 0, 1:
+			ops = append(ops, fmt.Sprintf("set %d %d", k, g.val()))
+		case 2:
+			ops = append(ops, fmt.Sprintf("inval %d", k))
+		case 3:
+			ops = append(ops, fmt.Sprintf("compute %d %s %s", k, g.act(), g.act()))
+		default:
+			ops = append(ops, fmt.Sprintf("get %d", k))
+		}
+	}
+	return " !{ " + strings.Join(ops, " ; ") + " }"
+}
+
 func (g *seqGen) loaderOp() {
 	r := g.r
 	switch r.intn(10) {
 	case 0, 1, 2, 3:
 		k := g.key()
-		g.add("load %d %s/%s%s", k, g.outcome(), g.outcome(), g.nestedBlock([]int{k}))
+		g.add("load %d %s/%s%s%s", k, g.outcome(), g.outcome(), g.nestedBlock([]int{k}), g.afterRetBlock([]int{k}))
 	case 4, 5, 6:
 		n := 1 + r.intn(4)
 		var ks []int
@@ -273,10 +304,10 @@ func (g *seqGen) loaderOp() {
 			ks = append(ks, k)
 			ss = append(ss, fmt.Sprint(k))
 		}
-		g.add("bulkget %s %s/%s%s", strings.Join(ss, ","), g.bulkOutcome(ks), g.bulkOutcome(ks), g.nestedBlock(ks))
+		g.add("bulkget %s %s/%s%s%s", strings.Join(ss, ","), g.bulkOutcome(ks), g.bulkOutcome(ks), g.nestedBlock(ks), g.afterRetBlock(ks))
 	case 7, 8:
 		k := g.key()
-		g.add("refresh %d %s/%s%s", k, g.outcome(), g.outcome(), g.nestedBlock([]int{k}))
+		g.add("refresh %d %s/%s%s%s", k, g.outcome(), g.outcome(), g.nestedBlock([]int{k}), g.afterRetBlock([]int{k}))
 	default:
 		n := 1 + r.intn(3)
 		var ks []int
